@@ -203,9 +203,11 @@ class MonitoredList(MonitoredContainer, list):
 
     def __setitem__(self, idx, value):
         if isinstance(idx, slice):
-            # the values may come from a one-shot iterator, which recording them would exhaust
-            value = list(value)
-        value = self._on_add(value)
+            # record every element on its own (the values may come from a one-shot iterator, and two distinct
+            # elements may compare equal)
+            value = [self._on_add(v) for v in value]
+        else:
+            value = self._on_add(value)
         super().__setitem__(idx, value)
 
     def insert(self, idx, item):
